@@ -56,7 +56,7 @@ def pair(name, keys, reqs, o, n, nfiles=1, start=None, kinds=None, qmax=2, maxat
         "S": both(n).rstrip()[:-1] + "\n",                         # unbalanced parenthesis
         "S2": both(n) + ')\n',                                     # stray closing parenthesis
         "R": both(n).replace("(deflayer %s " % n["layers"][0][0], "(deflayer %s nosuchkey " % n["layers"][0][0], 1),
-        "R2": '(include nofile.kbd)\n' + both(n),                  # refused: included file does not exist
+        "R2": both(n) + "(defsrc a)\n",                            # refused: a second defsrc
         "R3": both(n) + "(defalias)\n(deflayer %s)\n" % n["layers"][0][0],   # duplicate layer name / wrong length
     }
     btexts = {"O": both(o, neutral=True), "N": both(n, neutral=True), "X": both(n, neutral=True)}
@@ -104,8 +104,8 @@ def family(tier):
     # three files, all request kinds (F3)
     fam.append(pair("files3", ["a"], R4,
                     {"layers": [("l0", ["a"])]}, {"layers": [("n0", ["1"])]},
-                    nfiles=3, start=["O", "N", "N"], kinds=["N", "S"] if q else ["N", "O", "S", "missing", "X"],
-                    maxatt=2 if q else 3, pre=2 if q else 3, post=2 if q else 3, env=[],
+                    nfiles=3, start=["O", "N", "N"], kinds=["N", "S"] if q else ["N", "O", "S", "X"],
+                    maxatt=2, pre=2 if q else 3, post=2, env=[],
                     env_reqs=["r", "n", "p"] if q else None))
     if not q:
         # the one-second fallback: an unmod key is no NormalKey, so with it held kanata counts idle ticks and the reload
@@ -123,17 +123,20 @@ def family(tier):
 
 
 def check_texts(p, wd):
-    """The fault kinds are what they claim to be: the real parser accepts exactly the valid contents."""
+    """The fault kinds are what they claim to be: the real file loader (cfg::new_from_file, what a reload calls)
+    accepts exactly the valid contents."""
     build_harness()
-    for kind, text in list(p["texts"].items()) + [("B" + k, t) for k, t in p["btexts"].items()]:
-        f = os.path.join(wd, "c15_txt_%s_%s.kbd" % (p["name"], kind))
-        open(f, "w").write(text)
-        r = sh([HARNESS, "dump-cfg", f, "30", f + ".json"], check=False)
-        ok = r.returncode == 0
+    casef = os.path.join(wd, "c15_kinds_%s.json" % p["name"])
+    texts = dict(p["texts"])
+    texts.update({"B" + k: t for k, t in p["btexts"].items()})
+    json.dump({"texts": texts}, open(casef, "w"))
+    outf = casef + ".out"
+    sh([HARNESS, "reload-kinds", casef, outf, wd])
+    got = json.load(open(outf))
+    for kind, ok in got.items():
         want = kind in ("O", "N", "X") or kind.startswith("B")
         if ok != want:
-            raise ToolError("content kind %s of pair %s: parser %s it\n%s" %
-                            (kind, p["name"], "accepts" if ok else "rejects", (r.stdout or "")[-800:]))
+            raise ToolError("content kind %s of pair %s: the file loader %s it" % (kind, p["name"], "accepts" if ok else "rejects"))
 
 
 # ------------------------------------------------------------------------------------------------
@@ -165,7 +168,7 @@ InRec(S) == [on |-> TRUE, out |-> S.K.out]
 Input(kind, c) ==
   /\ SA' = InputS(SA, kind, c)
   /\ SB' = IF lane.b THEN InputS(SB, kind, c) ELSE SB
-  /\ SC' = IF lane.c = "on" THEN InputS(SC, kind, c) ELSE SC
+  /\ SC' = IF lane.c # "off" THEN InputS(SC, kind, c) ELSE SC
   /\ mon' = Mon!MonStep(mon, [e |-> kind, c |-> c, A |-> InRec(SA'), B |-> IF lane.b THEN InRec(SB') ELSE Off,
                               C |-> IF lane.c = "on" THEN InRec(SC') ELSE Off])
   /\ hist' = Append(hist, <<kind, c>>)
@@ -182,7 +185,7 @@ MonKind(f) == IF CfgOfKind[f] = "" THEN "bad" ELSE f
 TickWith(f, att, aidx) ==
   LET ra == LoopIter(SA, f, FALSE)
       rb == IF lane.b THEN LoopIter(SB, f, TRUE) ELSE 0
-      rc == IF lane.c = "on" THEN LoopIter(SC, f, FALSE) ELSE 0
+      rc == IF lane.c # "off" THEN LoopIter(SC, f, FALSE) ELSE 0
       trec == [e |-> "t", n |-> 1, phys |-> Cardinality(phys), A |-> TickRec(ra),
                B |-> IF lane.b THEN TickRec(rb) ELSE Off, C |-> IF lane.c = "on" THEN TickRec(rc) ELSE Off]
       mon0 == IF att THEN Mon!MonStep(mon, [e |-> "w", i |-> aidx, k |-> MonKind(f), valid |-> TRUE]) ELSE mon
@@ -191,7 +194,8 @@ TickWith(f, att, aidx) ==
       c2 == IF c1 = "wait" /\ ra.cb /\ phys = {} THEN "on" ELSE c1
   IN /\ SA' = ra.S
      /\ SB' = IF lane.b /\ ~ra.repl THEN rb.S ELSE 0
-     /\ SC' = IF lane.c = "on" THEN rc.S ELSE IF c2 = "on" THEN FreshS(ra.S.cfg, ci1) ELSE 0
+     \* the fresh instance is created in the iteration of the reload and fed from then on (compared once "on")
+     /\ SC' = IF ra.repl /\ lane.c # "on" THEN FreshS(ra.S.cfg, ci1) ELSE IF lane.c # "off" THEN rc.S ELSE 0
      /\ lane' = [b |-> lane.b /\ ~ra.repl, c |-> c2, ci |-> ci1]
      /\ mon' = Mon!MonStep(mon0, trec)
      /\ obs' = [out |-> ra.out, idle |-> ra.idle, cb |-> ra.cb, msgs |-> ra.msgs, lrr |-> ra.S.K.lrr, idx |-> ra.S.idx,
@@ -249,7 +253,7 @@ CFG_OF_KIND = {"O": "O", "N": "N", "X": "N"}
 
 def mon_params(p, idxsem, scap, files=None):
     codes = {q["key"]: cfgdesc.code(q["key"]) for q in p["reqs"]}
-    return {"files": list(files or p["start"]), "valid": ["O", "N", "X"], "first": p["first"],
+    return {"files": list(files or p["start"]), "valid": ["O", "N", "X"], "mayfail": ["X"], "first": p["first"],
             "req": [{"c": codes[q["key"]], "k": q["k"], "n": q["n"]} for q in p["reqs"]],
             "idxsem": idxsem, "scap": scap, "sec": 1000, "bound": 1, "settle": p["settle"]}
 
@@ -625,12 +629,12 @@ def run(tier, seed):
             steps = d["h"]
             lane_cases.append(dict(case_of(p, "%s/d%d" % (p["name"], i), steps + tail_steps(p, held_after(steps), settle),
                                            mon_params(p, "inuse", 1001)), pair=p["name"]))
-        cs, triples, n_att, n_max = lane_cases_from_edges(p, edges, rng, 60 if tier == "quick" else 600, settle)
+        cs, triples, n_att, n_max = lane_cases_from_edges(p, edges, rng, 60 if tier == "quick" else 400, settle)
         lane_cases += cs
         all_triples += len(triples)
         for t in triples:
             kinds_seen.add(t[1])
-        rc = random_cases(p, rng, 25 if tier == "quick" else 250, settle, 14 if tier == "quick" else 40)
+        rc = random_cases(p, rng, 25 if tier == "quick" else 150, settle, 14 if tier == "quick" else 40)
         lane_cases += rc
         evaluations += len(cs) + len(rc) + len(ws)
         if len(res.samples) < 4:
